@@ -75,4 +75,69 @@ def reduce1 (f : β → β → β) : List β → Option β
 /-- `sum` of a list of `int`s -/
 def isum (l : List Int) : Int := l.foldl (· + ·) 0
 
+/-- `range(a, b, k)` for a literal step `k ≥ 1`: CPython's length `(b - a + k - 1) // k` (0 when `b ≤ a`) -/
+def rangeStep (a b : Int) (k : Nat) : List Int :=
+  (List.range ((b - a + ((k : Int) - 1)) / (k : Int)).toNat).map fun (j : Nat) => a + (j : Int) * (k : Int)
+
+/-- `a ** e` for `int`s: the int power for `e ≥ 0`; a negative exponent (a float in Python) is OUTSIDE the rendering
+and given as `none` -/
+def ipowInt (a e : Int) : Option Int := if e < 0 then none else some (a ^ e.toNat)
+
+/-- `int("".join(map(str, l)), 2)` for a list of the ints 0/1, most significant digit first: `ValueError` (= `none`)
+on the empty list.  An element other than 0/1 is OUTSIDE the rendering (Python parses the decimal digits of the
+elements, `[10]` is 2, `[2]` raises) and given as `none`. -/
+def binNumeral (l : List Int) : Option Int :=
+  if l.isEmpty then none
+  else if l.all (fun d => d == 0 || d == 1) then some (l.foldl (fun acc d => 2 * acc + d) 0) else none
+
+/-- `while cond: body` over the tuple `s` of the variables the body assigns, at most `fuel` iterations:
+`none` = the body raised, or the loop is still running after `fuel` iterations (the theorems state the bound) -/
+def whileLoop {σ : Type} (cond : σ → Bool) (body : σ → Option σ) : Nat → σ → Option σ
+  | 0, s => if cond s then none else some s
+  | fuel + 1, s => if cond s then (body s).bind (whileLoop cond body fuel) else some s
+
+/-- `l * n` (list repetition; `n ≤ 0` gives the empty list) -/
+def listMul (l : List β) (n : Int) : List β := (List.replicate n.toNat l).flatten
+
+/-- `l[i] = v` in state-passing style: the new contents; negative indices count from the end, `IndexError` = `none` -/
+def setItem (l : List β) (i : Int) (v : β) : Option (List β) :=
+  if i < 0 then (if i + (l.length : Int) < 0 then none else some (l.set (i + (l.length : Int)).toNat v))
+  else if i.toNat < l.length then some (l.set i.toNat v) else none
+
+/-- `max(l)` of a list of floats: the first maximal element (a later one replaces the current one only when it is
+greater); `ValueError` on the empty list = `none` -/
+def pyMax : List α → Option α
+  | [] => none
+  | a :: t => some (t.foldl (fun m v => if m < v then v else m) a)
+
+/-- Python `<` on lists of floats (lexicographic; equality of two floats = neither is smaller) -/
+def listLt : List α → List α → Bool
+  | [], [] => false
+  | [], _ :: _ => true
+  | _ :: _, [] => false
+  | a :: as, b :: bs => if a < b then true else if b < a then false else listLt as bs
+
+/-- Python `<` on tuples `(float, list of floats)` -/
+def pairLt (p q : α × List α) : Bool :=
+  if p.1 < q.1 then true else if q.1 < p.1 then false else listLt p.2 q.2
+
+/-- `max(l)` of a list of such tuples: the first maximal one; `ValueError` on the empty list = `none` -/
+def pyMaxPair : List (α × List α) → Option (α × List α)
+  | [] => none
+  | a :: t => some (t.foldl (fun m v => if pairLt m v then v else m) a)
+
+/-- insertion into a list sorted in descending order, after the elements that are not smaller -/
+def insertDesc (x : α × List α) : List (α × List α) → List (α × List α)
+  | [] => [x]
+  | y :: t => if pairLt y x then x :: y :: t else y :: insertDesc x t
+
+/-- `sorted(l, reverse=True)` on `(float, list of floats)` tuples: descending and stable (equal elements keep their order) -/
+def sortDesc (l : List (α × List α)) : List (α × List α) :=
+  l.foldl (fun acc x => insertDesc x acc) []
+
+/-- `random.random()`: the next draw of the tape; `none` when the tape is exhausted -/
+def popRandom : List α → Option (α × List α)
+  | [] => none
+  | r :: rest => some (r, rest)
+
 end Gen
